@@ -48,6 +48,7 @@ type Result struct {
 	Sig      string         `json:"sig,omitempty"`
 	Detail   string         `json:"detail,omitempty"`
 	NT       []string       `json:"nt,omitempty"`       // keys of distinct non-trivial observations
+	Ms       int64          `json:"ms,omitempty"`       // wall time of the case
 	Evals    int            `json:"evals,omitempty"`    // executions performed inside this case (default 1)
 	NTCount  int            `json:"ntcount,omitempty"`  // further distinct non-trivial cases counted by the worker (disjoint across cases by construction)
 	Counters map[string]int `json:"counters,omitempty"` // summed into the evidence
@@ -235,7 +236,9 @@ func RunOne(p *Prop, c Case, env *Env) (r Result) {
 				Detail: fmt.Sprintf("panic: %v\n%s", e, buf)}
 		}
 	}()
+	t0 := time.Now()
 	r = p.Run(c, env)
+	r.Ms = time.Since(t0).Milliseconds()
 	r.Idx = c.Idx
 	r.Name = c.Name
 	if r.Verdict == "" {
@@ -505,6 +508,11 @@ func Run(p *Prop, tier string, seed int64, root, self, raceSelf string) int {
 			a.Counters["race_reports"] += len(bySig[s])
 			report(Case{Idx: -1, Name: "race-detector"}, Result{Trace: strings.Split(rr.Text, "\n")}, s, rr.Text)
 		}
+	}
+	slow := append([]Result{}, a.Results...)
+	sort.Slice(slow, func(i, j int) bool { return slow[i].Ms > slow[j].Ms })
+	for i := 0; i < 3 && i < len(slow) && slow[i].Ms > 5000; i++ {
+		fmt.Printf("  slow case %q: %.1fs (%d executions)\n", slow[i].Name, float64(slow[i].Ms)/1000, slow[i].Evals)
 	}
 	var nothing []string
 	if p.Finish != nil {
